@@ -123,6 +123,133 @@ def judge(lay, meta, r, variant=None):
     return out
 
 
+# ---- part F: each printed line shows that record's own field values -------------------------------------------
+LINUX_TYPES = {"EMPTY": 0, "RUN_LVL": 1, "BOOT_TIME": 2, "NEW_TIME": 3, "OLD_TIME": 4, "INIT_PROCESS": 5, "LOGIN_PROCESS": 6,
+               "USER_PROCESS": 7, "DEAD_PROCESS": 8, "ACCOUNTING": 9}
+TYPE_NAMES = ("RUN_LVL", "BOOT_TIME", "OLD_TIME", "NEW_TIME", "INIT_PROCESS", "LOGIN_PROCESS", "USER_PROCESS", "DEAD_PROCESS", "ACCOUNTING",
+              "SIGNATURE", "DOWN_TIME", "SHUTDOWN_TIME")
+TIME_FIELDS = {"ut_tv", "ut_time", "ut_xtime", "ll_time", "ll_tv", "ac_btime"}
+# fields printed under another label
+LABEL_OF = {"ut_exit": ("ut_exit", "e_termination"), "ut_addr_v6": ("ut_addr",)}
+NO_DECIMAL = {"ac_flag", "ac_etime", "ac_utime", "ac_stime", "ac_mem", "ac_io", "ac_rw", "ac_minflt", "ac_majflt", "ac_swaps", "ut_exit", "ac_tty", "ut_addr_v6", "ut_addr"}
+
+
+def field_table(lay):
+    f = dict(lay["fields"])
+    if lay["id"] == "linux_x86_utmpx" and "ut_addr_v6" not in f:
+        f["ut_addr_v6"] = (348, 16)       # struct utmp (x86): ut_tv at 340 (2 x int32), then int32_t ut_addr_v6[4]
+    return f
+
+
+def field_cases(lay):
+    """-> list of (group, variant name, record bytes, expectation) ; all records carry the same time value"""
+    f = field_table(lay)
+    sec, usec = E + 10, 7
+    base = bytearray(layouts.record(lay, sec, usec, b"K0q0", 0))
+    out = [("base", "base", bytes(base), None)]
+    if "ut_type" in f:
+        types = {k: v for k, v in lay["consts"].items() if k in TYPE_NAMES} or {k: v for k, v in LINUX_TYPES.items() if k in TYPE_NAMES}
+        for name, val in sorted(types.items(), key=lambda kv: kv[1]):
+            b = bytearray(base)
+            layouts._put(b, f["ut_type"][0], f["ut_type"][1], val)
+            out.append(("ut_type", name, bytes(b), ("type-name", name, val)))
+    seen = set()
+    for name, (off, sz) in sorted(f.items(), key=lambda kv: kv[1]):
+        if "." in name or name in TIME_FIELDS or name == "ut_type" or (off, sz) in seen or name == "ut_addr":
+            continue
+        seen.add((off, sz))
+        if name == "ut_addr_v6":
+            words = [0x0100007F, 0x00000001, 0x01000000, 0xABCD0123]
+            for mask in range(16):
+                b = bytearray(base)
+                for i in range(4):
+                    layouts._put(b, off + 4 * i, 4, words[i] if mask >> i & 1 else 0)
+                out.append((name, "words%s" % format(mask, "04b")[::-1], bytes(b), None))
+            continue
+        is_str = sz > 8 or name in ("ut_id", "ut_line", "ut_name", "ut_user", "ut_host", "ll_line", "ll_host", "ac_comm")
+        if is_str:
+            esz = 16 if (name == "ac_comm" and sz == 17) else sz      # char ac_comm[ACCT_COMM + 1]: the last byte is the terminator
+            vals = [("a", b"a"), ("b", b"b"), ("full-a", b"a" * esz), ("full-a-last-b", b"a" * (esz - 1) + b"b"), ("ab", b"ab")]
+            for vn, v in vals:
+                b = bytearray(base)
+                b[off:off + sz] = v[:sz].ljust(sz, b"\0")
+                out.append((name, vn, bytes(b), None))
+        else:
+            wide = int.from_bytes(bytes([8, 7, 6, 5, 4, 3, 2, 1][8 - sz:]), "big") & ((1 << (8 * sz - 1)) - 1)
+            for v in (1, 2, wide):
+                b = bytearray(base)
+                layouts._put(b, off, sz, v)
+                out.append((name, "int%d" % v, bytes(b), ("decimal", name, v)))
+    return out
+
+
+def part_fields(res, tier, work):
+    items = []
+    for l in layouts.LAYOUTS:
+        lay = layouts.layout(l[0])
+        for k, (group, vn, rec, exp) in enumerate(field_cases(lay)):
+            d = os.path.join(work, "F_%s_%d" % (l[0], k))
+            os.makedirs(d)
+            common.write_file(os.path.join(d, lay["file"]), rec)
+            items.append((l[0], group, vn, rec, exp, d, lay["file"]))
+
+    def one(it):
+        args = ["--color", "never", "-u", "-d", DTFMT, "-t", "+00:00", it[6]]
+        return it, args, common.run_s4(args, cwd=it[5])
+    texts = {}
+    for it, args, r in common.pmap(one, items):
+        lid, group, vn, rec, exp, d, fname = it
+        res.count()
+        res.distinct(("field", lid, group, vn))
+        body = r.out.replace(b"\n\x00", b"\n")
+        lines = [x for x in body.split(b"\n") if x]
+        m = LINE_RE.match(lines[0]) if len(lines) == 1 else None
+        texts[(lid, group, vn)] = (m.group(2) if m else None, args, rec, fname, len(lines))
+    for l in layouts.LAYOUTS:
+        lid = l[0]
+        lay = layouts.layout(lid)
+        base_text = texts[(lid, "base", "base")][0]
+        groups = {}
+        for (li, group, vn), v in texts.items():
+            if li == lid and group != "base":
+                groups.setdefault(group, []).append((vn, v))
+        for group, lst in sorted(groups.items()):
+            labels = LABEL_OF.get(group, (group,))
+            printed = base_text is not None and any(lb.encode() in base_text for lb in labels)
+            if not printed and group != "ut_type":
+                continue           # the program does not show this field (padding, reserved)
+            feats0 = {"part": "fields", "layout": lid, "field": group}
+            seen_text = {}
+            for vn, (text, args, rec, fname, nlines) in sorted(lst):
+                rep = {"engine": "E-CLI", "args": args, "files": {fname: common.b64(rec)}, "layout": lid, "records": []}
+                if text is None:
+                    res.violation(dict(feats0, symptom="record-not-printed", variant=vn.rstrip("0123456789")),
+                                  "%s: record with %s=%s printed %d lines" % (lid, group, vn, nlines), rep)
+                    continue
+                if text in seen_text:
+                    res.violation(dict(feats0, symptom="different-field-values-same-text"),
+                                  "%s: records that differ only in %s (%s vs %s) print the same text %r" % (lid, group, seen_text[text], vn, text[:120]), rep)
+                seen_text.setdefault(text, vn)
+            for (li, g, vn), (text, args, rec, fname, nlines) in texts.items():
+                if li != lid or g != group or text is None:
+                    continue
+                exp = [e for (a, b_, c, e, _d, _f, _g) in [(i[0], i[1], i[2], i[4], 0, 0, 0) for i in items] if (a, b_, c) == (lid, group, vn)][0]
+                if not exp:
+                    continue
+                rep = {"engine": "E-CLI", "args": args, "files": {fname: common.b64(rec)}, "layout": lid, "records": []}
+                if exp[0] == "type-name":
+                    mm = re.search(rb"ut_type (\S+)", text)
+                    if not mm or mm.group(1).decode() != exp[1]:
+                        res.violation(dict(feats0, symptom="type-name", platform_numbering_differs_from_linux=LINUX_TYPES.get(exp[1]) != exp[2]),
+                                      "%s: ut_type %d is %s on this platform, printed %r" % (lid, exp[2], exp[1], mm.group(1) if mm else None), rep)
+                elif exp[0] == "decimal" and group not in NO_DECIMAL:
+                    mm = re.search(rb"\b" + group.encode() + rb" '?(-?\d+)'?", text)
+                    sz = field_table(lay)[group][1]
+                    if not mm or int(mm.group(1)) not in (exp[2], exp[2] - (1 << (8 * sz))):
+                        res.violation(dict(feats0, symptom="field-value-text"), "%s: %s stored %d, printed %r" % (lid, group, exp[2], mm.group(1) if mm else text[:80]), rep)
+    res.coverage["part_fields_runs"] = len(items)
+
+
 def run(tier, seed, build=True):
     if build:
         common.build_real()
@@ -168,6 +295,7 @@ def run(tier, seed, build=True):
                 res.violation(feats, "%s records=%s nulls=%s %s blocksz %d: %s" % (lid, assign, nulls, cont, bsz, what),
                               {"engine": "E-CLI", "args": args, "files": {fname: common.b64(open(os.path.join(d, fname), "rb").read())},
                                "layout": lid, "records": [(t.decode(), s_, u, p) for t, s_, u, p in meta]})
+        part_fields(res, tier, work)
         res.sample({"layout": "netbsd_x8664_utmpx", "time_assignment": [2, 0, 0], "null_records_before_index": [1], "argv": ["--color", "never", "-u", "-d", DTFMT, "--blocksz", "521", "wtmpx"]})
         res.coverage["rule"] = ("16 record layouts (offset tables parsed from the platform documents in /repo/logs) x n<=3/4 records x EVERY assignment of time values from a 3-point domain "
                                 "(all duplicate/disorder patterns) x all-zero records before/between/after x block sizes x {plain, gz, tar}; oracle: printed sequence = stable sort by time of the "
